@@ -69,6 +69,11 @@ CLAIMS = {
    ref="§4 C08",
    note="The pattern reader re-implements only the requirement algebra (And/Or/Any) documented for SymbolsPattern; typeindex is trusted to find all direct references.",
    technique="table-literal evaluation + case-set and value-origin analysis + static evaluation of all pattern constants"),
+ "C11": dict(
+   text="Decides the structural part of selection/config/exit-status/format agreement: field-by-field agreement of Config with Merge (receiver-first, same field) and Load; the 'inherit' splice position; the outermost-first collection/reversal/left-fold of configuration files and command-line-over-package merge direction; the guards of the exit status (counted only when not ignored and in the fail set or compile/config/staticcheck; never 1 for SARIF); that no formatter filters and all share one list; that -checks and -fail use one resolver over one universe. The left-to-right algebra of check lists (globs, negation) over all inputs is string semantics and is not decided.",
+   ref="§4 C11",
+   note="Narrow: most regressions inside filterAnalyzerNames' string handling are out of reach of these rules; the TOML decoder is trusted.",
+   technique="field-exhaustiveness cross-check (types vs. AST/SSA) + guard-edge and value-origin rules"),
 }
 
 NOT_APPLICABLE = {
